@@ -1,5 +1,5 @@
 """Property -> rules.  The explanation/assumption texts end up in the evidence files."""
-from .rules import dtype, evalnodes, executor
+from .rules import dtype, evalnodes, executor, aggregates, eqfaith, compiler_rules as cr
 
 TRUSTED_ABSINT = [
     "Python/library semantics of operators, attributes, methods and whitelisted callables are obtained by applying "
@@ -38,6 +38,40 @@ PROPS = {
                   evalnodes.rule_3vl, executor.rule_rowloop, executor.rule_fromand],
         'thorough': [],
     },
+    'C02': {
+        'level': 'other',
+        'explanation': (
+            "Static necessary conditions of aggregation: the allocate -> initialize -> update* -> finalize -> read protocol "
+            "of the executor's aggregate branch read structurally and its WHERE/HAVING gates executed over the finite "
+            "domain {absent, NULL, false, true} (R-AGGPROTO); the fold contract of each of the 11 aggregate classes "
+            "(count/sum/min/max/first/last) decided by executing update() over value x slot x ordering classes, plus "
+            "group-state isolation and fresh zero per group (R-AGGCLASS, exhaustive over 12 cases per class); "
+            "faithfulness of the structural node equality used to merge GROUP BY expressions with targets, for all "
+            "evaluator classes and all column instances that can meet in one table (R-EQFAITH); grouping references "
+            "validated against the domain they are resolved in (R-IDXBOUND) and hidden grouping targets nameless and "
+            "appended (R-HIDDEN). Does not decide numeric values of folds nor hashing/equality of key values."),
+        'assumptions': TRUSTED_STRUCT,
+        'quick': [executor.rule_aggproto, aggregates.rule_aggclass, eqfaith.rule_eqfaith, cr.rule_idxbound, cr.rule_hidden],
+        'thorough': [],
+    },
+    'C03': {
+        'level': 'other',
+        'explanation': (
+            "Static necessary conditions of ORDER BY / DISTINCT / LIMIT: the result pipeline applies sort -> projection "
+            "to visible columns -> DISTINCT -> LIMIT in this order, LIMIT gated by `is not None` (LIMIT 0) with the "
+            "bound itself (R-PIPELINE); the multi-pass stable sort skeleton: passes from last key to first in runs of "
+            "equal direction, keys restored to left-to-right order inside a run, stable list.sort with reverse = run "
+            "direction and the NULL-totalising key (R-SORTSKEL); NULL replaced by a marker smaller than everything in "
+            "both key getters, NullType ordering, first-occurrence de-duplication, all by exhaustive finite-domain "
+            "execution (R-NULLKEY); faithfulness of node equality used to merge ORDER BY keys (R-EQFAITH); positional "
+            "keys validated against the number of visible targets (R-IDXBOUND); hidden keys nameless (R-HIDDEN). Does "
+            "not prove that the multi-pass scheme yields the lexicographic order (an algorithmic fact about stable "
+            "sorts) nor comparability of values."),
+        'assumptions': TRUSTED_STRUCT,
+        'quick': [executor.rule_pipeline, executor.rule_sortskel, executor.rule_nullkey, eqfaith.rule_eqfaith,
+                  cr.rule_idxbound, cr.rule_hidden],
+        'thorough': [],
+    },
     'C04': {
         'level': 'other',
         'explanation': (
@@ -52,7 +86,43 @@ PROPS = {
             "(R-RESOLVE-SAFE). Decides type conformance of declarations vs. implementations for all overloads; "
             "does not decide values of dtype `object` nor conformance of ledger data to beancount's annotations."),
         'assumptions': TRUSTED_ABSINT,
-        'quick': [dtype.rule_dtype, dtype.rule_typesafe, dtype.rule_renderable],
+        'quick': [dtype.rule_dtype, dtype.rule_typesafe, dtype.rule_renderable, cr.rule_opresolve],
+        'thorough': [],
+    },
+    'C05': {
+        'level': 'other',
+        'explanation': (
+            "Static census of the rejection paths: every raise site reachable while parsing/compiling raises a "
+            "ProgrammingError subclass (R-RAISE, 37 sites, 4 triaged exceptions); each acceptance rule of the statement "
+            "has a guard of the right shape in the function that owns it (R-GUARDS, 27 rows of tables/guards.json); "
+            "every site creating a target applies the aggregate checks (R-TARGETCHK); the guards themselves cannot "
+            "raise TypeError/AttributeError (R-GUARDSAFE, abstract interpretation of FROM/SELECT compilation with the "
+            "From node typed from its annotations); positional references validated in the domain they are resolved "
+            "in, bounds executed for positions 0, 1, n, n+1, -1 (R-IDXBOUND); operator handlers resolve overloads by "
+            "operand dtypes (R-OPRESOLVE); partial conversions in semantic actions total on the language of their "
+            "grammar rule (R-PARTIAL); compile-time constant folding protected (R-FOLDSAFE); AST classes <-> compiler "
+            "handlers <-> shell handlers exhaustive (R-EXHAUSTIVE); DB-API exception tree (R-EXCTREE); structural "
+            "equality faithful (R-EQFAITH). Does not decide acceptance of every well-formed statement nor validity "
+            "of parse positions produced by TatSu at run time."),
+        'assumptions': TRUSTED_STRUCT + TRUSTED_ABSINT[:1],
+        'quick': [cr.rule_raise, cr.rule_guards, cr.rule_targetchk, cr.rule_guard_typesafe, cr.rule_idxbound,
+                  cr.rule_opresolve, cr.rule_partial, cr.rule_foldsafe, cr.rule_exhaustive, cr.rule_exctree,
+                  eqfaith.rule_eqfaith],
+        'thorough': [],
+    },
+    'C07': {
+        'level': 'other',
+        'explanation': (
+            "Static necessary conditions of result shape and naming: helper targets created for GROUP BY / ORDER BY / "
+            "HAVING always carry the name None and are appended after the visible ones; the naming priority alias > "
+            "column name > stripped expression text executed over its 4 cases (R-HIDDEN); every consumer that derives "
+            "the description, result rows or a nested table's columns from the compiled targets filters on the "
+            "name, and subquery columns are numbered among the visible targets (R-VISFILTER); `*` expands to names "
+            "that are columns of the table, for all 10 tables (R-WILDCARD); the expression text is text[pos:endpos] of "
+            "the node's own parse info (R-NAMESLICE); projection to visible indexes (R-PIPELINE). Does not decide that "
+            "the slice equals the expression's text for arbitrary spacing (positions come from TatSu at run time)."),
+        'assumptions': TRUSTED_STRUCT,
+        'quick': [cr.rule_hidden, cr.rule_visfilter, cr.rule_wildcard, cr.rule_nameslice, executor.rule_pipeline],
         'thorough': [],
     },
 }
